@@ -68,6 +68,8 @@ pub struct Held {
     pub what: &'static str,
     /// reference node when the held array is a handle of a known node
     pub node: Option<usize>,
+    /// training iteration the held array belongs to (0 = none)
+    pub tag: u64,
 }
 
 /// What one pass looked like; used by coverage rules.
@@ -87,6 +89,8 @@ pub struct PassInfo {
     pub root_is_leaf: bool,
     pub via_clone: bool,
     pub invocations: usize,
+    pub engine_steps: u64,
+    pub engine_size: u64,
 }
 
 #[derive(Clone, Debug, Default)]
@@ -110,6 +114,7 @@ pub struct Counters {
     pub updates: u64,
     pub updates_frozen_middle: u64,
     pub stale_reads: u64,
+    pub reference_selfchecks: u64,
 }
 
 pub fn status_code(out: &StepOut) -> u8 {
@@ -172,6 +177,14 @@ pub struct Sim {
     pub protected: BTreeSet<usize>,
     /// per event: 1 done, 2 skipped (precondition), 3 dead, 4 skipped by a harness guard, 5 refused / nonconforming in corgi
     pub status_log: Vec<u8>,
+    /// persistent optimizer objects (id -> object, learning rate)
+    pub optimizers: BTreeMap<usize, (Rc<GradientDescent>, f64)>,
+    /// input batches handed to a model: node -> iteration whose output graph holds them
+    pub model_pins: BTreeMap<usize, u64>,
+    pub train_frozen_flags: Vec<[bool; 2]>,
+    pub train_layer_count: usize,
+    /// the persistent optimizer a running training span borrows (other actors must not use it meanwhile)
+    pub train_opt_in_use: Option<usize>,
 }
 
 pub const EXACT_BOUND_F64: f64 = 1125899906842624.0; // 2^50
@@ -262,6 +275,11 @@ impl Sim {
             train_param_count: 0,
             protected: BTreeSet::new(),
             status_log: Vec::new(),
+            optimizers: BTreeMap::new(),
+            model_pins: BTreeMap::new(),
+            train_frozen_flags: Vec::new(),
+            train_layer_count: 0,
+            train_opt_in_use: None,
         }
     }
 
@@ -557,7 +575,7 @@ impl Sim {
         let guarded = match ev {
             Ev::Pass { root, .. } => self.is_protected(*root),
             Ev::GradClear { slot, .. } => self.is_protected(*slot),
-            Ev::Update { slots, .. } => slots.iter().any(|s| self.is_protected(*s)),
+            Ev::Update { slots, opt, .. } => slots.iter().any(|s| self.is_protected(*s)) || opt.map(|o| self.train_opt_in_use == Some(o)).unwrap_or(false),
             Ev::Flag { slot, f } => matches!(f, FlagOp::Start | FlagOp::Tracked) && self.is_protected(*slot),
             Ev::FlagClone { src, f, .. } => matches!(f, FlagOp::Start | FlagOp::Tracked) && self.is_protected(*src),
             _ => false,
@@ -640,7 +658,7 @@ impl Sim {
                         }
                     }
                     let snap = Obs::of(&g);
-                    self.held.push(Held { arr: g, snap, what: "fetched gradient", node: None });
+                    self.held.push(Held { arr: g, snap, what: "fetched gradient", node: None, tag: 0 });
                 }
                 self.post_plain("gradread");
                 StepOut::Done
@@ -753,10 +771,10 @@ impl Sim {
                 self.post_plain("flagclone");
                 StepOut::Done
             }
-            Ev::Update { slots, lr } => self.do_update(slots, *lr),
+            Ev::Update { slots, lr, opt, keep_stale } => self.do_update(slots, *lr, *opt, *keep_stale),
             Ev::Retire { slot } => self.do_retire(*slot),
             Ev::Refuse(r) => self.do_refuse(r),
-            Ev::Nop => StepOut::Done,
+            Ev::Nop | Ev::NewWorld { .. } => StepOut::Done,
             Ev::DropHeld => {
                 self.held.clear();
                 self.post_plain("dropheld");
@@ -932,6 +950,21 @@ impl Sim {
         };
         let reach = self.g.reach(rn);
         let adj = if self.cfg.monitors || self.cfg.guard_mag { self.g.adjoints(rn, &seed_vals) } else { BTreeMap::new() };
+        if self.cfg.monitors && reach.len() >= 6 && reach.len() <= 40 && self.event_index % 8 == 0 {
+            // self-check of the harness: the edge-wise accumulation used for deep graphs agrees with
+            // the pure forward-mode evaluation
+            let alt = self.g.adjoints_edgewise(rn, &seed_vals);
+            for (n, a) in &adj {
+                let b = &alt[n];
+                for i in 0..a.a.len() {
+                    let tol = 1e4 * eps() * (a.mag[i] + b.mag[i] + 1.0);
+                    if !((a.a[i] - b.a[i]).abs() <= tol) {
+                        panic!("harness self-check failed: reference adjoints disagree at node {} element {}: {} vs {}", n, i, a.a[i], b.a[i]);
+                    }
+                }
+            }
+            self.cnt.reference_selfchecks += 1;
+        }
         if (self.cfg.monitors || self.cfg.guard_mag) && self.cfg.regime == Regime::Int {
             // integer data stays exact iff every partial sum the pass can form is representable:
             // magnitude (with what is already stored) times the finest granularity of any term
@@ -1007,8 +1040,12 @@ impl Sim {
         };
         if let Some(s) = &seed_arr {
             let snap = Obs::of(s);
-            self.held.push(Held { arr: s.clone(), snap, what: "seed", node: None });
+            self.held.push(Held { arr: s.clone(), snap, what: "seed", node: None, tag: 0 });
         }
+        // bounded progress: a pass visits every node a bounded number of times (hook: step counter)
+        let n_edges: usize = reach.iter().map(|n| if self.g.nodes[*n].has_graph { self.g.nodes[*n].edges.len() } else { 0 }).sum();
+        let budget = 64 * (reach.len() + n_edges) as u64 + 4096;
+        corgi::array::verif_hook::arm(budget);
         let res = {
             let slots = self.sh.slots.borrow();
             let h = slots[root].as_ref().unwrap();
@@ -1021,11 +1058,22 @@ impl Sim {
                 }
             }))
         };
+        let steps = corgi::array::verif_hook::steps();
+        corgi::array::verif_hook::arm(0);
+        pi.engine_steps = steps;
+        pi.engine_size = (reach.len() + n_edges) as u64;
         if via_clone {
             self.fault("F2_pass_from_clone");
         }
         if pi.overlapped_earlier {
             self.fault("F4F5_pass_over_previously_differentiated_nodes");
+        }
+        if res.is_err() && crate::last_panic().contains("corgi_verif: step budget") {
+            let class = self.pass_class(&reach);
+            self.viol("C11", "engine_step_budget", class, format!("the pass made more than {} node visits for a graph of {} reachable nodes and {} edges: work is not proportional to nodes and edges", budget, reach.len(), n_edges));
+            self.dead = true;
+            self.passes.push(pi);
+            return StepOut::Dead;
         }
         if res.is_err() {
             let class = self.pass_class(&reach);
@@ -1293,7 +1341,7 @@ impl Sim {
         }
     }
 
-    fn do_update(&mut self, slots: &[Slot], lr: f64) -> StepOut {
+    fn do_update(&mut self, slots: &[Slot], lr: f64, opt: Option<usize>, keep_stale: bool) -> StepOut {
         let mut uniq = BTreeSet::new();
         if slots.is_empty() || slots.iter().any(|s| !self.live(*s) || !uniq.insert(*s)) {
             return StepOut::Skipped("parameter slot empty or repeated");
@@ -1310,14 +1358,28 @@ impl Sim {
                 })
                 .collect()
         };
+        // a persistent optimizer object keeps the learning rate it was created with
+        let (gd, lr): (Rc<GradientDescent>, f64) = match opt {
+            None => (Rc::new(GradientDescent::new(lr as Float)), lr),
+            Some(id) => {
+                let e = self.optimizers.entry(id).or_insert_with(|| (Rc::new(GradientDescent::new(lr as Float)), lr));
+                if Rc::strong_count(&e.0) > 1 || self.train_phase >= 2 && false {
+                    // in use by an open model session
+                }
+                (e.0.clone(), e.1)
+            }
+        };
+        if opt.is_some() {
+            self.fault("F9_persistent_optimizer_object");
+        }
         // keep the stale handles (F10) as held observations
-        {
+        if keep_stale {
             let sl = self.sh.slots.borrow();
             for s in slots {
                 let h = sl[*s].as_ref().unwrap();
                 let node = self.info[*s].as_ref().unwrap().node;
                 let snap = Obs::of(h);
-                self.held.push(Held { arr: h.clone(), snap, what: "stale parameter handle", node: Some(node) });
+                self.held.push(Held { arr: h.clone(), snap, what: "stale parameter handle", node: Some(node), tag: 0 });
             }
         }
         let res = {
@@ -1340,7 +1402,6 @@ impl Sim {
             for (_, r) in refs {
                 params.push(r);
             }
-            let gd = GradientDescent::new(lr as Float);
             catch_unwind(AssertUnwindSafe(|| gd.update(params)))
         };
         self.cnt.updates += 1;
@@ -1466,7 +1527,11 @@ impl Sim {
         }));
         self.obs_log.push(ObsRec { event: self.event_index, kind: if res.is_ok() { "retire_ok" } else { "retire_panic" }, slot, obs: None });
         let class = format!("{}{}", self.g.nodes[l].origin, if was_passed { " differentiated" } else { "" });
-        if self.protected.contains(&l) {
+        // an input batch (or a view sharing its buffer) is held by the model's retained output graph
+        let model_pinned = self.model_pins.iter().any(|(n, it)| {
+            self.g.nodes[*n].alias == self.g.nodes[l].alias && (self.model_output_iter == Some(*it) || self.held.iter().any(|h| h.tag == *it && h.what == "kept model output"))
+        });
+        if self.protected.contains(&l) || model_pinned {
             // a live model parameter seen through an observer's handle: the layer holds it too
             match res {
                 Ok(_) => self.cnt.retire_control_ok += 1,
@@ -1480,7 +1545,7 @@ impl Sim {
                 Err(_) => self.cnt.retire_control_panics += 1,
             }
         } else if !pinned_cons {
-            if was_passed && stored_grad || was_passed && self.held.iter().any(|h| h.what == "fetched gradient") {
+            if was_passed && stored_grad || was_passed && self.held.iter().any(|h| h.what == "fetched gradient") || self.model_pins.contains_key(&l) {
                 self.c18_nontrivial += 1;
             }
             match res {
